@@ -142,6 +142,36 @@ def job_dask(P, C, D, N, chunks):
     P.run("dask", sc_dask, dict(C=C, D=D, N=N, chunks=chunks), validate=1)
 
 
+def job_boundary(P):
+    """witness search beyond the symbolic bound: the moments/additivity scenarios on the real code
+    at row counts around every integer constant that occurs in the source"""
+    from symexec import loader
+
+    sizes = sorted({n for c in loader.int_constants() for n in (c - 1, c, c + 1, 2 * c + 1) if 8 <= n <= 5000})
+    P.probe_real("boundary-moments", sc_moments_only, [dict(C=2, D=1, N=n) for n in sizes], tries=1)
+    P.probe_real("boundary-split", sc_split_big, [dict(C=2, D=1, N=n) for n in sizes], tries=1)
+
+
+def sc_moments_only(B, C, D, N):
+    m, P = make_gmm(B, C, D, "matrix")
+    X = B.arr("x", (N, D))
+    o = Outcome()
+    eq_stats(o, "moments", m.acc_stats(X), o_stats(B, P, X))
+    return o
+
+
+def sc_split_big(B, C, D, N):
+    m, P = make_gmm(B, C, D, "matrix")
+    X = B.arr("x", (N, D))
+    o = Outcome()
+    h = N // 2
+    s = m.acc_stats(X[:h]) + m.acc_stats(X[h:])
+    w = m.acc_stats(X)
+    o.equal("split-equals-whole/px", s.sum_px, w.sum_px)
+    o.equal("split-equals-whole/n", s.n, w.n)
+    return o
+
+
 def job_refuse(P):
     for h in [(c, d, c, d) for c in (1, 2) for d in (1, 2)]:
         for op in ("add", "iadd"):
@@ -177,4 +207,5 @@ def jobs(tier):
             for comp in compositions(N):
                 out.append(("dask@C%dD%dN%d-%s" % (C, D, N, "+".join(map(str, comp))), "job_dask", dict(C=C, D=D, N=N, chunks=comp)))
     out.append(("refuse", "job_refuse", {}))
+    out.append(("boundary", "job_boundary", {}))
     return out
